@@ -96,6 +96,7 @@ def terms():
                         H = Var('Hs%d' % k, TFun(T2, inner.get_type(), T1, T2, BoolType))
                         DECL[H.name] = H.T
                         ts.append(ab('x', bx, ab('y', by, H(by, inner, bx, by))))
+    ts += [q(Suc(x)), x < Suc(y), Lambda(z, Suc(z) + x), And(sp, q(Suc(sn)))]
     _T['terms'] = ts
     return ts
 
@@ -208,14 +209,32 @@ def judge(orig, masked, declared):
     from kernel.type import TypeMatchException
     sk = erase(orig, masked)
     vars_ctx = dict(DECL) if declared else {}
-    with context.fresh_context(vars=vars_ctx):
+    extra = {}
+    if declared == 'adverse':
+        # a context that disagrees with what the skeleton still says: schematic variables declared at another type than their kept
+        # annotation, and context definitions for names that are constants of the theory (the annotation / the theory signature win)
+        from kernel.type import NatType, BoolType, TFun
+        extra = {'svars': {v.name: (NatType if v.T == BoolType else BoolType) for v in orig.get_svars()},
+                 'defs': {'Suc': TFun(BoolType, BoolType)}}     # (the head of the left side of a top-level equation is resolved through defs by design: Suc never stands there)
+    with context.fresh_context(vars=vars_ctx, **extra):
         try:
             res = infertype.type_infer(sk)
         except TypeInferenceException:
             # allowed: "under-determined" -- except when only variable types were erased and they are declared
-            only_vars = all(node_at(orig, p).is_var() for p in masked)
+            def recoverable(n):
+                # declared variables, and constants whose theory signature has no type variables, lose nothing when erased
+                if n.is_var():
+                    return True
+                if n.is_const() and not n.is_abs():
+                    try:
+                        sig = theory.thy.get_term_sig(n.name)
+                        return not sig.get_tvars() and not sig.get_stvars()
+                    except Exception:
+                        return False
+                return False
+            only_vars = all(recoverable(node_at(orig, p)) for p in masked)
             if declared and only_vars:
-                return 'infer-no-recovery', 'only declared variable types were erased from %r, but inference fails' % orig, True
+                return 'infer-no-recovery', 'only types of declared variables and of monomorphic constants were erased from %r (sites %s), but inference fails' % (orig, sorted(masked)), True
             return None, 'own error', False
         except Exception as e:
             return 'infer-exception', 'type_infer on the erasure %s of %r raised %s: %s' % (sorted(masked), orig, type(e).__name__, str(e)[:80]), True
@@ -377,7 +396,9 @@ def run_terms(u, out):
         masks = [tuple(rnd.randint(0, 1) for _ in range(k)) for _ in range(n)] + [tuple([1] * k), tuple([0] * k)]
     for m in masks:
         masked = frozenset(p for p, b in zip(ss, m) if b)
-        for declared in (True, False):
+        for declared in (True, False, 'adverse'):
+            if declared == 'adverse' and any(node_at(orig, p).is_svar() for p in masked):
+                continue        # an erased schematic variable legitimately takes its declared type
             out['evals'] += 1
             if os.environ.get('VERIF_TWIN'):
                 if len(out['cex']) < 2:
